@@ -193,6 +193,115 @@ WITNESSES = {
 }
 
 
+# ----------------------------------------------------------------------------------------------- functions outside the model
+def _preempt_scenarios():
+    """functions already built by a completed call, of kinds the Build model does not cover (value-dependent handlers:
+    generated per-rank dispatchers; an Ovld object used as a descriptor in a class).  Each scenario: make() -> (call_a,
+    call_b, probes, expected) with expected = the sequential answers."""
+    import ovld as _ov
+    from ovld import Dependent
+
+    def dep():
+        f = _ov.Ovld(name="f")
+
+        def pos(x: Dependent[int, lambda v: v > 0]):
+            return "pos"
+
+        def neg(x: Dependent[int, lambda v: v < 0]):
+            return "neg"
+
+        def nonempty(x: Dependent[str, lambda v: len(v) > 0]):
+            return "nonempty-str"
+
+        def obj(x: object):
+            return "obj"
+        for m in (pos, neg, nonempty, obj):
+            f.register(m)
+        f(2.5)
+        return (lambda: f(7)), (lambda: f("s")), [lambda: f(7), lambda: f("s"), lambda: f(-1), lambda: f(0), lambda: f("")], ["pos", "nonempty-str", "pos", "nonempty-str", "neg", "obj", "obj"]
+
+    def descriptor():
+        class C:
+            f = _ov.Ovld(name="f")
+
+            @f.register
+            def f(self, x: int):
+                return "int"
+
+            @f.register
+            def f(self, x: object):
+                return "obj"
+        o = C()
+        o.f(2.5)
+        return (lambda: o.f(2)), (lambda: o.f("s")), [lambda: o.f(2), lambda: o.f("s"), lambda: o.f(2.5)], ["int", "obj", "int", "obj", "obj"]
+    return {"dependent_handlers": dep, "descriptor_ovld": descriptor}
+
+
+def _outcome(thunk):
+    try:
+        return thunk()
+    except Exception as e:  # noqa
+        return "EXC:" + type(e).__name__ + ":" + str(e)[:40]
+
+
+def check_one_preemption(ctx, stats, stride):
+    """thread A is held before its n-th executed library line -- and, in a second sweep, at its n-th entry into a library
+    function -- thread B then makes its whole call, A resumes: for every n both results and the later probes must be the
+    sequential ones.  Property oracle alone."""
+    import os
+    from .. import REPO_SRC
+    libdir = os.path.join(REPO_SRC, "ovld")
+    for (name, make), unit in [(sc, u) for sc in _preempt_scenarios().items() for u in ("line", "call")]:
+        n = 0
+        while n < 3000:
+            call_a, call_b, probes, expected = make()
+            count = [0]
+            paused, resume, done = threading.Event(), threading.Event(), threading.Event()
+            res = {}
+
+            def tracer(frame, event, arg):
+                inlib = frame.f_code.co_filename.startswith(libdir)
+                if event == "call":
+                    if inlib and unit == "call":
+                        if count[0] == n and not paused.is_set():
+                            paused.set()
+                            resume.wait(10)
+                        count[0] += 1
+                    return tracer if inlib else None
+                if event == "line" and inlib and unit == "line":
+                    if count[0] == n and not paused.is_set():
+                        paused.set()
+                        resume.wait(10)
+                    count[0] += 1
+                return tracer
+
+            def run_a():
+                sys.settrace(tracer)
+                try:
+                    res["a"] = _outcome(call_a)
+                finally:
+                    sys.settrace(None)
+                    done.set()
+            ta = threading.Thread(target=run_a)
+            ta.start()
+            while not (paused.is_set() or done.is_set()):
+                paused.wait(0.01)
+            reached = paused.is_set()
+            res["b"] = _outcome(call_b)
+            resume.set()
+            ta.join(20)
+            got = [res.get("a"), res["b"]] + [_outcome(p) for p in probes]
+            stats["evaluations"] += 1
+            stats["one_preemption_schedules"] = stats.get("one_preemption_schedules", 0) + 1
+            if got != expected:
+                ctx.violation(f"{name}: thread A held at its library {unit} #{n} while thread B makes its whole call: results {got}, sequentially {expected}",
+                              {"one_preemption": name, "unit": unit, "n": n})
+                return
+            if not reached:
+                break
+            n += stride
+
+
 def run(ctx):
     stats = {"evaluations": 0, "traces_validated": 0, "known": collections.Counter(), "outcome_hist": collections.Counter(),
              "kinds": collections.Counter(), "modes": collections.Counter(), "distinct": set(), "chain_invalid": 0, "reach_sizes": [], "os_trials": 0,
@@ -200,6 +309,7 @@ def run(ctx):
     samples = []
     rng = ctx.rng
     t0 = time.time()
+    check_one_preemption(ctx, stats, stride=1)
     # (a) the refutation witnesses, replayed on the real code
     for name, w in WITNESSES.items():
         case = {k: w[k] for k in ("scn", "setup", "tops", "after", "kind")}
@@ -283,6 +393,7 @@ def run(ctx):
         if not B.crosscheck_extraction(raw):
             ctx.violation("extracted model and vm_compute disagree", {"cases": raw}, kind="extraction")
     return {"evaluations": stats["evaluations"], "distinct_nontrivial": len(stats["distinct"]), "vm_compute_crosscheck_cases": cross,
+            "one_preemption_schedules_on_functions_outside_the_model": stats.get("one_preemption_schedules", 0),
             "rule": "scenarios = random single-argument method sets with a call_next chain, racing the first call / cache misses for equal and different keys / call_next chains / warm keys, 2 threads (3 sampled); schedules = the three refutation witnesses, random schedules with <= 3 pre-emptions at source-anchored markers (replayed on both sides, exact comparison), random line-level schedules with <= 3 pre-emptions (outcome must be in the model's exhaustively enumerated reachable set), OS-level trials with switch interval 1e-6; a schedule is non-trivial when it contains at least one pre-emption (all do); distinct by (scenario, thread operations, schedule)",
             "samples": samples, "traces_validated_against_impl": stats["traces_validated"], "schedule_modes": dict(stats["modes"]),
             "scenario_kind_histogram": dict(stats["kinds"]), "outcome_histogram": dict(stats["outcome_hist"]),
